@@ -1,0 +1,102 @@
+//go:build verif
+
+package orderedmap
+
+// Contracts for OrderedMap (property C11: insertion-ordered map), read by the verification
+// machinery in /verif. Comment-only file.
+//
+// Abstract view: the ghost sequence seq[0..n) of the elements in first-insertion order and the inverse
+// index idx (key -> position). The representation invariant ties the prev/next chain, head/tail and
+// the dictionary to that sequence. D abbreviates o.dictionary.m (the dictionary's Go map; ShrinkingMap
+// is verified separately, its contracts are used here).
+// These proofs are sequential (opt sequential): the element chain belongs to Element objects that the
+// monitor mechanism does not havoc; lock discipline obligations (re-entrancy, order, unlock-held) are
+// still generated for every path.
+
+/*@
+type OrderedMap
+  ghost seq (Array Int Int)
+  ghost n Int
+  ghost idx (Array U_K Int)
+  monitor mutex level 8 guards head, tail, size
+  invariant self.dictionary != nil && self.dictionary.m != nil && self.dictionary.opts != nil && unlocked(self.dictionary.mutex)
+  invariant self.n == self.size && self.n >= 0
+  invariant self.head == (self.n == 0 ? nil : as(*Element, sel(self.seq, 0))) && self.tail == (self.n == 0 ? nil : as(*Element, sel(self.seq, self.n - 1)))
+  invariant forall i Int :: 0 <= i && i < self.n ==> sel(self.seq, i) != 0 && as(*Element, sel(self.seq, i)).prev == (i == 0 ? nil : as(*Element, sel(self.seq, i - 1))) && as(*Element, sel(self.seq, i)).next == (i == self.n - 1 ? nil : as(*Element, sel(self.seq, i + 1)))
+  invariant forall i Int :: 0 <= i && i < self.n ==> has(self.dictionary.m, as(*Element, sel(self.seq, i)).key) && self.dictionary.m[as(*Element, sel(self.seq, i)).key] == as(*Element, sel(self.seq, i)) && sel(self.idx, as(*Element, sel(self.seq, i)).key) == i
+  invariant forall k K :: has(self.dictionary.m, k) ==> 0 <= sel(self.idx, k) && sel(self.idx, k) < self.n && as(*Element, sel(self.seq, sel(self.idx, k))).key == k
+
+func New
+  ghost at return: r0.n = 0
+  ensures r0 != nil && fresh(r0) && inv(r0) && unlocked(r0.mutex)
+
+func OrderedMap.Size
+  opt sequential
+  requires unlocked(o.mutex)
+  ensures o != nil ==> r0 == o.n && unlocked(o.mutex)
+  ensures o == nil ==> r0 == 0
+
+func OrderedMap.Has
+  opt sequential
+  requires o != nil && unlocked(o.mutex)
+  ensures has <==> has(o.dictionary.m, key)
+  ensures unlocked(o.mutex)
+
+func OrderedMap.Get
+  opt sequential
+  requires o != nil && unlocked(o.mutex)
+  ensures exists <==> has(o.dictionary.m, key)
+  ensures exists ==> value == o.dictionary.m[key].value
+  ensures unlocked(o.mutex)
+
+func OrderedMap.Head
+  opt sequential
+  requires o != nil && unlocked(o.mutex)
+  ensures exists <==> o.n > 0
+  ensures exists ==> key == as(*Element, sel(o.seq, 0)).key && value == as(*Element, sel(o.seq, 0)).value
+  ensures unlocked(o.mutex)
+
+func OrderedMap.Tail
+  opt sequential
+  requires o != nil && unlocked(o.mutex)
+  ensures exists <==> o.n > 0
+  ensures exists ==> key == as(*Element, sel(o.seq, o.n - 1)).key && value == as(*Element, sel(o.seq, o.n - 1)).value
+  ensures unlocked(o.mutex)
+
+-- a new key is appended to the order, an existing key keeps its position and only changes its value
+func OrderedMap.Set
+  opt sequential
+  opt assume-no-overflow
+  requires o != nil && unlocked(o.mutex)
+  modifies o.head, o.tail, o.size, o.seq, o.n, o.idx, map(o.dictionary.m), Element.value, Element.next
+  ghost before unlock: o.seq = (o.size > o.n ? upd(o.seq, o.n, o.tail) : o.seq)
+  ghost before unlock: o.idx = (o.size > o.n ? upd(o.idx, key, o.n) : o.idx)
+  ghost before unlock: o.n = o.size
+  ensures previousValueExisted <==> old(has(o.dictionary.m, key))
+  ensures has(o.dictionary.m, key) && o.dictionary.m[key].value == newValue
+  ensures previousValueExisted ==> previousValue == old(o.dictionary.m[key].value) && o.n == old(o.n) && o.seq == old(o.seq)
+  ensures !previousValueExisted ==> o.n == old(o.n) + 1 && as(*Element, sel(o.seq, old(o.n))) == o.dictionary.m[key] && (forall i Int :: 0 <= i && i < old(o.n) ==> sel(o.seq, i) == sel(old(o.seq), i))
+  ensures forall k K :: k != key ==> (has(o.dictionary.m, k) <==> old(has(o.dictionary.m, k))) && o.dictionary.m[k] == old(o.dictionary.m[k])
+  ensures unlocked(o.mutex)
+
+-- removing a key closes the gap and keeps the order of the others
+func OrderedMap.Delete
+  opt sequential
+  opt assume-no-overflow
+  requires o != nil && unlocked(o.mutex)
+  modifies o.head, o.tail, o.size, o.seq, o.n, o.idx, o.dictionary.m, o.dictionary.deletedKeys, map(o.dictionary.m), Element.next, Element.prev
+  ghost before unlock: choose o.seq, o.idx, o.n with (o.size == old(o.n) ==> o.seq == old(o.seq) && o.idx == old(o.idx) && o.n == old(o.n)) && (o.size != old(o.n) ==> o.n == old(o.n) - 1 && (forall i Int :: 0 <= i && i < o.n ==> sel(o.seq, i) == (i < sel(old(o.idx), key) ? sel(old(o.seq), i) : sel(old(o.seq), i + 1))) && (forall k K :: k != key ==> sel(o.idx, k) == (sel(old(o.idx), k) > sel(old(o.idx), key) ? sel(old(o.idx), k) - 1 : sel(old(o.idx), k))))
+  ensures r0 <==> old(has(o.dictionary.m, key))
+  ensures !has(o.dictionary.m, key)
+  ensures r0 ==> o.n == old(o.n) - 1 && (forall i Int :: 0 <= i && i < o.n ==> sel(o.seq, i) == (i < sel(old(o.idx), key) ? sel(old(o.seq), i) : sel(old(o.seq), i + 1)))
+  ensures !r0 ==> o.n == old(o.n) && o.seq == old(o.seq)
+  ensures forall k K :: k != key ==> (has(o.dictionary.m, k) <==> old(has(o.dictionary.m, k))) && (has(o.dictionary.m, k) ==> o.dictionary.m[k] == old(o.dictionary.m[k]))
+  ensures unlocked(o.mutex)
+
+func OrderedMap.Clear
+  opt sequential
+  requires unlocked(o.mutex)
+  modifies o.head, o.tail, o.size, o.dictionary, o.seq, o.n, o.idx
+  ghost before unlock: o.n = 0
+  ensures o != nil ==> o.n == 0 && unlocked(o.mutex)
+@*/
